@@ -23,7 +23,7 @@ from .hmcmass import momentum_obligations
 HMC = "inference/mcmc/hmc/__init__.py"
 MASS = "inference/mcmc/hmc/mass.py"
 FLOORS = {"fd-probe-inside-bounds": 1, "float-arithmetic": 2, "splitting-structure": 2, "shear": 2, "mass-law": 3, "momentum-law": 3, "hamiltonian-consistent": 2,
-          "fd-denominator": 1, "reflect-commutes-with-mass": 3, "force-is-potential-gradient": 2}
+          "fd-denominator": 1, "reflect-commutes-with-mass": 3, "force-is-potential-gradient": 2, "trajectory-inputs-current": 3}
 
 
 def hmc_expander(prog, ci):
@@ -45,6 +45,12 @@ def run(prog, tier):
     obs.extend(shared)
     unroll = 3 if tier == "thorough" else 2
     ci = prog.cls("HamiltonianChain")
+
+    # ---------------------------------------------------------------- one trajectory, one generation of the sampler's state
+    from .common import current_state_obligations
+    obs.extend(current_state_obligations(prog, "trajectory-inputs-current", [ci],
+                                         "the trajectory mixes two generations of the step size / mass / position - it is no longer the "
+                                         "reversible leapfrog map of one Hamiltonian"))
 
     # ---------------------------------------------------------------- splitting structure + shear
     for mname in ("standard_leapfrog", "bounded_leapfrog"):
